@@ -119,6 +119,8 @@ class C11Machine(RecordingMixin, RuleBasedStateMachine):
         full_source = self.src["purity"] != 1 or self.src["indistinguishability"] != 1
         if full_source and (ph > 2 or d > 7):
             return True
+        if not full_source and ph <= 1 and d <= 64 and c.input_modes > 0:
+            return False           # wide circuits with a single photon stay cheap (r_wide_read_edit_read)
         return d > 9 or ph > 3 or c.input_modes == 0
 
     def compare(self, what, long_fn, fresh_fn, cmp):
@@ -204,6 +206,58 @@ class C11Machine(RecordingMixin, RuleBasedStateMachine):
         if self.prog is not None:
             self.prog = {"n": self.prog["n"], "ops": [*self.prog["ops"], op]}
         self.changed("edit-in-place")
+
+    def do_edit_tail(self, op, j):
+        """In-place edit confined to the last j user modes (where heralds of the top-level circuit usually sit)."""
+        from checks.c08 import remap_op, user_modes
+        um = user_modes(self.circ)
+        j = max(1, min(j, um))
+        if self.circ.U_full.shape[0] - self.circ.n_modes >= 3:
+            return
+        op = remap_op(op, j)
+        if op is None:
+            return
+        off = um - j
+        op = list(op)
+        if op[0] == "bs":
+            op[1] += off
+            op[2] = None if op[2] is None else op[2] + off
+        elif op[0] in ("ps", "loss", "unitary"):
+            op[1] += off
+        elif op[0] == "barrier":
+            op[1] = None if op[1] is None else [m + off for m in op[1]]
+        elif op[0] == "swaps":
+            op[1] = [[a + off, b + off] for a, b in op[1]]
+        apply_real(self.circ, op)
+        if self.prog is not None:
+            self.prog = {"n": self.prog["n"], "ops": [*self.prog["ops"], op]}
+        self.changed("edit-in-place-tail")
+
+    def do_wide_circuit(self, m, useed, at):
+        """A dense interferometer on m modes with one photon: the compiled matrix has m*m entries (above a thousand
+        for m >= 32), the distributions stay tiny."""
+        prog = {"n": m, "ops": [["unitary", 0, "haar", m, useed]]}
+        new = build_real(prog)
+        self.prog = prog
+        self.circ = new
+        self.state = [1 if i == at % m else 0 for i in range(m)]
+        self.sampler.circuit = new
+        self.quick.circuit = new
+        self.analyzer.circuit = new
+        self.fit_state()
+        self.changed("circuit-wide")
+
+    def do_edit_at(self, pos, refl):
+        from checks.c08 import user_modes
+        um = user_modes(self.circ)
+        if um < 2:
+            return
+        m = pos % (um - 1)
+        op = ["bs", m, m + 1, refl, "Rx", 0]
+        apply_real(self.circ, op)
+        if self.prog is not None:
+            self.prog = {"n": self.prog["n"], "ops": [*self.prog["ops"], op]}
+        self.changed("edit-in-place-at")
 
     def do_edit_herald(self, n, a):
         c = self.circ
@@ -620,6 +674,34 @@ class C11Machine(RecordingMixin, RuleBasedStateMachine):
         """cached distribution -> same components with different heralding -> read again"""
         self.step("read", which=which)
         self.step("assign_circuit", prog={"n": 2, "ops": []}, how=how, a=a, b=b, n=n)
+        if sample:
+            self.step("sample", which=sample, seed=seed, n=20)
+        self.step("read", which=which)
+
+    @rule(which=st.sampled_from(["sampler", "quick"]), op=gen.primitive(6, True), j=st.integers(1, 3),
+          n=st.integers(0, 1), nh=st.integers(0, 2),
+          sample=st.sampled_from(["N_inputs", "N_outputs", "quick.N_outputs", None, None]), seed=st.integers(0, 2 ** 20))
+    def r_read_edit_tail_read(self, which, op, j, n, nh, sample, seed):
+        """(heralds on the last modes) -> cached distribution -> in-place edit that touches only the last j modes
+        -> read again: what changes is confined to the last rows and columns of the compiled matrix"""
+        for _ in range(nh):
+            self.step("edit_herald", n=n, a=-1)    # a=-1: the last free user mode
+        self.step("read", which=which)
+        self.step("edit_tail", op=op, j=j)
+        if sample:
+            self.step("sample", which=sample, seed=seed, n=20)
+        self.step("read", which=which)
+
+    @rule(m=st.sampled_from([12, 32, 33, 40]), useed=st.integers(0, 10 ** 6), at=st.integers(0, 63),
+          pos=st.integers(0, 63), refl=st.sampled_from([0.0, 0.3, 0.5]),
+          which=st.sampled_from(["sampler", "quick"]),
+          sample=st.sampled_from(["N_outputs", "quick.N_outputs", "quick.sample", None]), seed=st.integers(0, 2 ** 20))
+    def r_wide_read_edit_read(self, m, useed, at, pos, refl, which, sample, seed):
+        """a wide dense circuit (compiled matrix with more than a thousand entries) -> cached distribution -> one
+        beam splitter added somewhere in the middle -> read again"""
+        self.step("wide_circuit", m=m, useed=useed, at=at)
+        self.step("read", which=which)
+        self.step("edit_at", pos=pos, refl=refl)
         if sample:
             self.step("sample", which=sample, seed=seed, n=20)
         self.step("read", which=which)
